@@ -52,6 +52,7 @@ type ovPkg struct {
 	name       string
 	vars       map[string]bool // package-level variable names
 	mutable    map[string]bool // root variables assigned outside init
+	refLike    map[string]bool // package-level variables that hold a map or a slice (a local copy of one is an alias, not a copy)
 	atomicVar  map[string]bool // package-level variables whose declared type mentions sync/atomic
 	files      []*ovFile
 }
@@ -121,7 +122,7 @@ func generateOverlay(dir string) (*OverlayInfo, error) {
 		}
 		pk := pkgs[ip]
 		if pk == nil {
-			pk = &ovPkg{importPath: ip, name: f.Name.Name, vars: map[string]bool{}, mutable: map[string]bool{}, atomicVar: map[string]bool{}}
+			pk = &ovPkg{importPath: ip, name: f.Name.Name, vars: map[string]bool{}, mutable: map[string]bool{}, atomicVar: map[string]bool{}, refLike: map[string]bool{}}
 			pkgs[ip] = pk
 		}
 		of := &ovFile{path: p, pkg: pk, file: f, repoImports: map[string]string{}}
@@ -155,11 +156,18 @@ func generateOverlay(dir string) (*OverlayInfo, error) {
 							})
 						}
 					}
-					for _, n := range vs.Names {
+					for i, n := range vs.Names {
 						if n.Name != "_" {
 							pk.vars[n.Name] = true
 							if mentionsAtomic {
 								pk.atomicVar[n.Name] = true
+							}
+							var val ast.Expr
+							if i < len(vs.Values) {
+								val = vs.Values[i]
+							}
+							if isRefLike(vs.Type, val) {
+								pk.refLike[n.Name] = true
 							}
 						}
 					}
@@ -308,6 +316,58 @@ func generateOverlay(dir string) (*OverlayInfo, error) {
 	return info, nil
 }
 
+// isRefLike: does a package-level variable declared with this type / initial value hold a map or a slice?
+// (syntactic: map and slice types, make of one, and composite literals of named types whose elements have literal keys)
+func isRefLike(typ, val ast.Expr) bool {
+	isRefType := func(t ast.Expr) bool {
+		switch v := t.(type) {
+		case *ast.MapType:
+			return true
+		case *ast.ArrayType:
+			return v.Len == nil
+		}
+		return false
+	}
+	if typ != nil {
+		return isRefType(typ)
+	}
+	switch v := val.(type) {
+	case *ast.CompositeLit:
+		if v.Type == nil {
+			return false
+		}
+		if isRefType(v.Type) {
+			return true
+		}
+		switch v.Type.(type) {
+		case *ast.Ident, *ast.SelectorExpr:
+			for _, el := range v.Elts {
+				if kv, ok := el.(*ast.KeyValueExpr); ok {
+					if _, lit := kv.Key.(*ast.BasicLit); lit {
+						return true
+					}
+				}
+			}
+		}
+	case *ast.CallExpr:
+		if id, ok := v.Fun.(*ast.Ident); ok && id.Name == "make" && len(v.Args) > 0 {
+			return isRefType(v.Args[0])
+		}
+	}
+	return false
+}
+
+// lastName: the variable name an identifier or qualified identifier ends in
+func lastName(e ast.Expr) string {
+	switch v := e.(type) {
+	case *ast.Ident:
+		return v.Name
+	case *ast.SelectorExpr:
+		return v.Sel.Name
+	}
+	return ""
+}
+
 func addImport(f *ast.File, name, path string) {
 	spec := &ast.ImportSpec{Name: ast.NewIdent(name), Path: &ast.BasicLit{Kind: token.STRING, Value: strconv.Quote(path)}}
 	for _, d := range f.Decls {
@@ -394,6 +454,7 @@ func localNames(fd *ast.FuncDecl) map[string]bool {
 // visit (if non-nil) is called with them; hook (if non-nil) returns statements to insert before it.
 func forEachAccess(of *ovFile, pkgs map[string]*ovPkg, fd *ast.FuncDecl, visit func(ast.Stmt, []access), hook func([]access) []ast.Stmt) {
 	locals := localNames(fd)
+	aliasOf := map[string]ast.Expr{} // filled below, once pathOf exists
 	// rootOf returns the access path of an expression rooted at a package-level variable.
 	var pathOf func(e ast.Expr) (root, path string, ok bool)
 	pathOf = func(e ast.Expr) (string, string, bool) {
@@ -415,6 +476,12 @@ func forEachAccess(of *ovFile, pkgs map[string]*ovPkg, fd *ast.FuncDecl, visit f
 				return r, p + "." + v.Sel.Name, true
 			}
 		case *ast.IndexExpr:
+			// an element reached through a local that is a direct alias of a package-level map or slice
+			if id, ok := v.X.(*ast.Ident); ok {
+				if tgt, ok := aliasOf[id.Name]; ok {
+					return pathOf(tgt)
+				}
+			}
 			return pathOf(v.X)
 		case *ast.ParenExpr:
 			return pathOf(v.X)
@@ -422,6 +489,59 @@ func forEachAccess(of *ovFile, pkgs map[string]*ovPkg, fd *ast.FuncDecl, visit f
 			return pathOf(v.X)
 		}
 		return "", "", false
+	}
+	// direct aliases: a local assigned exactly once in the function, from a bare package-level variable that
+	// holds a map or a slice, and whose address is never taken.  Its elements ARE the package-level variable's.
+	{
+		assigned := map[string]int{}
+		cand := map[string]ast.Expr{}
+		noteLHS := func(e ast.Expr) {
+			if id, ok := e.(*ast.Ident); ok {
+				assigned[id.Name]++
+			}
+		}
+		ast.Inspect(fd.Body, func(n ast.Node) bool {
+			switch v := n.(type) {
+			case *ast.AssignStmt:
+				for i, l := range v.Lhs {
+					noteLHS(l)
+					id, ok := l.(*ast.Ident)
+					if !ok || !locals[id.Name] || len(v.Lhs) != len(v.Rhs) || (v.Tok != token.DEFINE && v.Tok != token.ASSIGN) {
+						continue
+					}
+					switch v.Rhs[i].(type) {
+					case *ast.Ident, *ast.SelectorExpr:
+						if root, _, ok := pathOf(v.Rhs[i]); ok {
+							k := strings.LastIndex(root, ".")
+							if pkgs[root[:k]].refLike[root[k+1:]] && root[k+1:] == lastName(v.Rhs[i]) {
+								cand[id.Name] = v.Rhs[i]
+							}
+						}
+					}
+				}
+			case *ast.IncDecStmt:
+				noteLHS(v.X)
+			case *ast.RangeStmt:
+				noteLHS(v.Key)
+				noteLHS(v.Value)
+			case *ast.ValueSpec:
+				for _, n := range v.Names {
+					assigned[n.Name]++
+				}
+			case *ast.UnaryExpr:
+				if v.Op == token.AND {
+					if id, ok := v.X.(*ast.Ident); ok {
+						assigned[id.Name] += 2
+					}
+				}
+			}
+			return true
+		})
+		for name, tgt := range cand {
+			if assigned[name] == 1 {
+				aliasOf[name] = tgt
+			}
+		}
 	}
 	var collect func(e ast.Expr, write bool, acc *[]access)
 	collect = func(e ast.Expr, write bool, acc *[]access) {
@@ -471,6 +591,11 @@ func forEachAccess(of *ovFile, pkgs map[string]*ovPkg, fd *ast.FuncDecl, visit f
 				}
 			}
 			if id, ok := v.Fun.(*ast.Ident); ok && id.Name == "delete" && len(v.Args) == 2 {
+				if aid, ok := v.Args[0].(*ast.Ident); ok {
+					if tgt, ok := aliasOf[aid.Name]; ok {
+						collect(tgt, true, acc)
+					}
+				}
 				collect(v.Args[0], true, acc)
 				collect(v.Args[1], false, acc)
 				return
